@@ -34,58 +34,74 @@ Theorem C16_start_is_scaled_setpoint : forall k e delta plim,
 Proof. exact start_is_scaled_setpoint. Qed.
 Print Assumptions C16_start_is_scaled_setpoint.
 
-(* a non-controllable generator is pinned (within delta) to its setpoint p_mw * scaling: holds under G16gen
-   (scaling = 1 or p_mw = 0), false otherwise — the box is built from the unscaled p_mw *)
-Theorem C16_fixed_gen_partial : forall e delta plim x,
-  e_ctrl e = Some false -> G16gen e = true ->
+(* a non-controllable generator is pinned (within delta) to its setpoint p_mw * scaling *)
+Theorem C16_fixed_gen_pinned : forall e delta plim x,
+  e_ctrl e = Some false ->
   PMIN (gen_row KGen e delta plim) <= x /\ x <= PMAX (gen_row KGen e delta plim) ->
   e_p e * e_scaling e - delta <= x /\ x <= e_p e * e_scaling e + delta.
-Proof. exact fixed_gen_partial. Qed.
-Print Assumptions C16_fixed_gen_partial.
+Proof. exact fixed_gen_pinned. Qed.
+Print Assumptions C16_fixed_gen_pinned.
 
-Theorem C16_fixed_gen_refuted :
-  exists e delta plim x, e_ctrl e = Some false /\ 0 <= delta /\
-    (PMIN (gen_row KGen e delta plim) <= x /\ x <= PMAX (gen_row KGen e delta plim)) /\
+(* regression: the box before the repair (around the unscaled p_mw) pins the setpoint only under G16gen_old *)
+Theorem C16_fixed_gen_old_refuted :
+  exists e delta x, e_ctrl e = Some false /\ 0 <= delta /\
+    (fst (fixed_box_old e delta) <= x /\ x <= snd (fixed_box_old e delta)) /\
     ~ (e_p e * e_scaling e - delta <= x /\ x <= e_p e * e_scaling e + delta).
-Proof. exact fixed_gen_refuted. Qed.
-Print Assumptions C16_fixed_gen_refuted.
+Proof. exact fixed_gen_old_refuted. Qed.
+Print Assumptions C16_fixed_gen_old_refuted.
+Theorem C16_fixed_gen_old_partial : forall e delta x,
+  G16gen_old e = true -> e_ctrl e = Some false ->
+  fst (fixed_box_old e delta) <= x /\ x <= snd (fixed_box_old e delta) ->
+  e_p e * e_scaling e - delta <= x /\ x <= e_p e * e_scaling e + delta.
+Proof. exact fixed_gen_old_partial. Qed.
+Print Assumptions C16_fixed_gen_old_partial.
 
 (* dcline: the generator pair of the power-flow model (_add_dcline_gens) satisfies the linear constraint the OPF
-   adds (_add_dcline_constraints) — under G16dc (loss_percent = 0), in either flow direction *)
-Theorem C16_dcline_opf_eq_pf_partial : forall d,
-  G16dc d = true -> opf_lhs d (g_to (pf_dcline d)) (g_from (pf_dcline d)) == opf_rhs d.
-Proof. exact dcline_partial. Qed.
-Print Assumptions C16_dcline_opf_eq_pf_partial.
+   adds (_add_dcline_constraints) — for every dcline, any loss_percent / loss_mw, both flow directions *)
+Theorem C16_dcline_opf_eq_pf : forall d,
+  opf_lhs d (g_to (pf_dcline d)) (g_from (pf_dcline d)) == opf_rhs d.
+Proof. exact dcline_opf_eq_pf. Qed.
+Print Assumptions C16_dcline_opf_eq_pf.
 
-Theorem C16_dcline_opf_eq_pf_refuted :
+(* and the OPF constraint determines the receiving-end power from the sending-end power: an OPF result is a valid
+   power-flow operating point of the dcline *)
+Theorem C16_dcline_opf_determines_receiving : forall d pg_to pg_from,
+  opf_lhs d pg_to pg_from == opf_rhs d ->
+  (0 < d_p d -> pg_from == g_from (pf_dcline d) -> pg_to == g_to (pf_dcline d)) /\
+  (d_p d <= 0 -> pg_to == g_to (pf_dcline d) -> pg_from == g_from (pf_dcline d)).
+Proof. exact dcline_opf_determines_receiving. Qed.
+Print Assumptions C16_dcline_opf_determines_receiving.
+
+(* regression: the constraint before the repair ((1 + l) Pg_to + Pg_from = -loss_mw) *)
+Theorem C16_dcline_old_refuted :
   exists d, d_in d = true /\ 0 < d_p d /\
-    ~ opf_lhs d (g_to (pf_dcline d)) (g_from (pf_dcline d)) == opf_rhs d.
-Proof. exact dcline_refuted. Qed.
-Print Assumptions C16_dcline_opf_eq_pf_refuted.
-
-(* the exact residual of the OPF constraint at the power-flow point (forward flow): -l (p l + loss_mw), l = loss%/100 *)
-Theorem C16_dcline_deviation : forall d, 0 < d_p d ->
-  opf_lhs d (g_to (pf_dcline d)) (g_from (pf_dcline d)) - opf_rhs d
+    ~ opf_lhs_old d (g_to (pf_dcline d)) (g_from (pf_dcline d)) == opf_rhs d.
+Proof. exact dcline_old_refuted. Qed.
+Print Assumptions C16_dcline_old_refuted.
+Theorem C16_dcline_old_partial : forall d, G16dc_old d = true -> 0 < d_p d ->
+  opf_lhs_old d (g_to (pf_dcline d)) (g_from (pf_dcline d)) == opf_rhs d.
+Proof. exact dcline_old_partial. Qed.
+Print Assumptions C16_dcline_old_partial.
+Theorem C16_dcline_old_deviation : forall d, 0 < d_p d ->
+  opf_lhs_old d (g_to (pf_dcline d)) (g_from (pf_dcline d)) - opf_rhs d
   == - (d_loss_pct d / 100) * (d_p d * (d_loss_pct d / 100) + d_loss_mw d).
-Proof. exact dcline_deviation. Qed.
-Print Assumptions C16_dcline_deviation.
+Proof. exact dcline_old_deviation. Qed.
+Print Assumptions C16_dcline_old_deviation.
 
-(* the OPF constraint fixes the receiving-end power given the sending-end power *)
-Theorem C16_dcline_opf_unique : forall d pg_to pg_to' pg_from, 0 <= d_loss_pct d ->
-  opf_lhs d pg_to pg_from == opf_rhs d -> opf_lhs d pg_to' pg_from == opf_rhs d -> pg_to == pg_to'.
-Proof. exact dcline_opf_unique. Qed.
-Print Assumptions C16_dcline_opf_unique.
+(* constraint matrix: one row per in-service dcline, stating that dcline's own constraint (any in/out-of-service mix) *)
+Theorem C16_dcline_rows_spec : forall ds,
+  exists rows, dcline_rows ds = Some rows /\ List.length rows = List.length (filter d_in ds) /\
+    forall k d, nth_error (filter d_in ds) k = Some d ->
+      exists r, nth_error rows k = Some r /\
+        forall pg_to pg_from, fst (fst r) * pg_to + snd (fst r) * pg_from == opf_lhs d pg_to pg_from /\ snd r == opf_rhs d.
+Proof. exact dcline_rows_spec. Qed.
+Print Assumptions C16_dcline_rows_spec.
 
-Theorem C16_dcline_rows_all_in : forall ds, ds <> [] -> forallb d_in ds = true ->
-  dcline_rows ds = Some (map (fun d => (qadd 1 (qdiv (d_loss_pct d) 100), 1, qopp (d_loss_mw d))) ds).
-Proof. exact dcline_rows_all_in. Qed.
-Print Assumptions C16_dcline_rows_all_in.
-
-(* a mixture of in-service and out-of-service dclines cannot be set up (the impl raises) *)
-Theorem C16_dcline_rows_mixed : forall ds,
-  existsb d_in ds = true -> forallb d_in ds = false -> dcline_rows ds = None.
-Proof. exact dcline_rows_mixed. Qed.
-Print Assumptions C16_dcline_rows_mixed.
+(* regression: before the repair a mixture of in-service and out-of-service dclines could not be set up *)
+Theorem C16_dcline_rows_old_mixed : forall ds,
+  existsb d_in ds = true -> forallb d_in ds = false -> dcline_rows_old ds = None.
+Proof. exact dcline_rows_old_mixed. Qed.
+Print Assumptions C16_dcline_rows_old_mixed.
 
 (* branch limit: the current limit the OPF enforces (|I| * baseMVA <= RATE_A) is the declared max_loading_percent
    on the loading the result table reports; s3 stands for sqrt 3 (any positive value cancels) *)
@@ -109,9 +125,9 @@ Proof. exact vm_writes_last. Qed.
 Print Assumptions C16_vm_pinned.
 
 Example C16_nonvacuous :
-  G16gen {| e_p := 1; e_q := 0; e_scaling := 1; e_min_p := None; e_max_p := None; e_min_q := None; e_max_q := None;
-            e_ctrl := Some false |} = true
-  /\ G16dc {| d_p := 1; d_loss_pct := 0; d_loss_mw := 1 # 16; d_max_p := 2; d_in := true |} = true
+  G16gen_old {| e_p := 1; e_q := 0; e_scaling := 1; e_min_p := None; e_max_p := None; e_min_q := None; e_max_q := None;
+                e_ctrl := Some false |} = true
+  /\ G16dc_old {| d_p := 1; d_loss_pct := 0; d_loss_mw := 1 # 16; d_max_p := 2; d_in := true |} = true
   /\ fixed_gen KLoad {| e_p := 1; e_q := 0; e_scaling := 1; e_min_p := Some 0; e_max_p := Some 2; e_min_q := None;
                         e_max_q := None; e_ctrl := None |} = false.
 Proof. repeat split. Qed.
